@@ -223,6 +223,35 @@ func c13Run(args []string) Result {
 			}
 		}
 	}
+	throughGob := false
+	if (c13Seed(args)>>1)%3 == 0 {
+		// "every Dawg": the same automaton after a GobEncode/GobDecode round trip into a receiver that held (and had
+		// encoded) another automaton before. C14 says this is the same automaton; if the round trip fails the Dawg above is kept.
+		guard(func() string {
+			enc, e := d.GobEncode()
+			if e != nil || c14Unsafe(enc) != "" {
+				return ""
+			}
+			old, e := dawg.New([][]byte{{}, {'a'}})
+			if e != nil {
+				return ""
+			}
+			oe, e := old.GobEncode()
+			d3 := new(dawg.Dawg)
+			if e != nil || c14Unsafe(oe) != "" || d3.GobDecode(oe) != nil {
+				return ""
+			}
+			if _, e := d3.GobEncode(); e != nil {
+				return ""
+			}
+			if d3.GobDecode(enc) != nil {
+				return ""
+			}
+			d = d3
+			throughGob = true
+			return ""
+		})
+	}
 	oracle := ""
 	fail := func(f string, a ...interface{}) {
 		if oracle == "" {
@@ -230,6 +259,9 @@ func c13Run(args []string) Result {
 		}
 	}
 	tags := map[string]bool{}
+	if throughGob {
+		tags["through-gob-into-used-receiver"] = true
+	}
 	if builtWithRejects {
 		tags["built-with-refused-adds"] = true
 	}
